@@ -13,6 +13,7 @@
 package main
 
 import (
+	"context"
 	"encoding/json"
 	"errors"
 	"fmt"
@@ -630,6 +631,70 @@ func runConfig(cfg srvCfg, ci int) {
 				return
 			}
 			run.Distinct(fmt.Sprintf("%s|handle-timeout|v%d|ow%v", cfg, v, oneway))
+		}
+	}
+	// ---- phase 3b: a short request timeout on an idle server ----
+	// nothing is queued, so a request with a 700 ms timeout of its own is executed at once, whatever
+	// the phase of the wall-clock second it arrives in
+	if cfg.HandleMs == 0 {
+		c := clients[0]
+		for k := 0; k < 14; k++ {
+			s := reqSpec{ID: nextID(r), Version: []int16{1, 3, 5}[k%3], Func: "outFirst", Timeout: 700, Token: fmt.Sprintf("c10-%d-short%d", ci, k), Kind: "ok", Ret: int64(70 + k), TokenOut: fmt.Sprintf("T%d", k)}
+			w.Servant.SetDirective(s.Token, &vworld.Directive{Ret: s.Ret, Outs: []interface{}{s.TokenOut}})
+			c.conn.Write(buildRequest(s, obj))
+			run.Eval(1)
+			if !judge(cfg, w, c, s, witBase) {
+				return
+			}
+			run.Distinct(fmt.Sprintf("%s|short-timeout-idle|v%d", cfg, s.Version))
+			time.Sleep(80 * time.Millisecond)
+		}
+	}
+	// ---- phase 4 (UDP): requests accepted before a graceful shutdown are still answered ----
+	// (for TCP this is C12's matter: there the connection is the unit that drains)
+	if cfg.Proto == "udp" && cfg.HandleMs == 0 {
+		c := clients[0]
+		gate := make(chan struct{})
+		var ss []reqSpec
+		for k := 0; k < 2; k++ {
+			s := reqSpec{ID: nextID(r), Version: 1, Func: "outFirst", Timeout: 0, Token: fmt.Sprintf("c10-%d-shut%d", ci, k), Kind: "ok", Ret: int64(40 + k), TokenOut: fmt.Sprintf("S%d", k)}
+			w.Servant.SetDirective(s.Token, &vworld.Directive{Ret: s.Ret, Outs: []interface{}{s.TokenOut}, Gate: gate})
+			c.conn.Write(buildRequest(s, obj))
+			ss = append(ss, s)
+		}
+		started := 1
+		if cfg.Pool != 1 {
+			started = 2
+		}
+		if !waitFor(func() bool {
+			return len(w.Servant.ReceivedFor(ss[0].Token))+len(w.Servant.ReceivedFor(ss[1].Token)) >= started
+		}, 3*time.Second) {
+			run.Inconclusive("udp shutdown phase: the gated requests did not start")
+		} else {
+			done := make(chan struct{})
+			go func() {
+				ctx, cancel := context.WithTimeout(context.Background(), 8*time.Second)
+				defer cancel()
+				_ = w.Server.Shutdown(ctx)
+				close(done)
+			}()
+			time.Sleep(150 * time.Millisecond)
+			close(gate)
+			for _, s := range ss {
+				run.Eval(1)
+				if !judge(cfg, w, c, s, func(extra map[string]interface{}) map[string]interface{} {
+					m := witBase(extra)
+					m["phase"] = "two gated udp requests, graceful Shutdown 150 ms before the handlers finish"
+					return m
+				}) {
+					break
+				}
+				run.Distinct(fmt.Sprintf("%s|shutdown-in-flight", cfg))
+			}
+			select {
+			case <-done:
+			case <-time.After(12 * time.Second):
+			}
 		}
 	}
 	if ci == 1 {
